@@ -51,6 +51,9 @@ def install(sim, fs=None):
     # dulprovider.socket is only used for `socket.error` (== OSError): left alone on purpose,
     # but a repair might create sockets there, so give it the factory too.
     patch(dulprovider, 'socket', sns)
+    # AEBase.lock: a simulator lock, so that a holder pre-empted by the fine-grain mode can never
+    # block a real thread outside the baton
+    patch(applicationentity, 'Lock', lambda: simnet.SimLock(sim))
     # server AEs: the listening socket is a stub (never bound; the simulator's listener table
     # plays accept()).  StorageAE offers no bind_and_activate switch, hence the patch.
     import socketserver
